@@ -109,8 +109,36 @@ fn payload(n: usize) -> BS<Vec<u8>> {
     .boxed()
 }
 
+/// a real secp256k1 public key (a point on the curve) in compressed, uncompressed or hybrid
+/// (prefix 06/07) encoding - implementations that decode the key must still hash the pushed bytes
+pub fn real_pubkey() -> BS<Vec<u8>> {
+    (any::<[u8; 32]>(), 0u8..3)
+        .prop_map(|(seed, enc)| {
+            use bitcoin::secp256k1::{PublicKey, Secp256k1, SecretKey};
+            let secp = Secp256k1::signing_only();
+            let mut s = seed;
+            let sk = loop {
+                match SecretKey::from_slice(&s) {
+                    Ok(k) => break k,
+                    Err(_) => s = crate::hashes::sha256(&s),
+                }
+            };
+            let pk = PublicKey::from_secret_key(&secp, &sk);
+            match enc {
+                0 => pk.serialize().to_vec(),
+                1 => pk.serialize_uncompressed().to_vec(),
+                _ => {
+                    let mut u = pk.serialize_uncompressed().to_vec();
+                    u[0] = 0x06 | (u[64] & 1);
+                    u
+                }
+            }
+        })
+        .boxed()
+}
+
 pub fn t_p2pk() -> BS<Vec<u8>> {
-    (prop_oneof![Just(33usize), Just(65usize)]).prop_flat_map(payload).prop_map(|k| {
+    prop_oneof![3 => (prop_oneof![Just(33usize), Just(65usize)]).prop_flat_map(payload), 1 => real_pubkey()].prop_map(|k| {
         let mut s = push_form(&k, 0);
         s.push(0xac);
         s
